@@ -157,6 +157,8 @@ def tzobj(zr, kind="pendulum"):
         r = None
     elif kind == "zoneinfo":
         r = zoneinfo.ZoneInfo(zr["n"])
+    elif kind == "pendulum-nocache":
+        r = pendulum.Timezone.no_cache(zr["n"])   # same name, a different tzinfo object
     elif kind == "native-fixed":
         r = _dt.timezone(_dt.timedelta(seconds=zr["fo"]))
     elif zr["n"] == "":
